@@ -508,7 +508,8 @@ class Block(Entity):
                             "provide a new name when copying destination "
                             "is the same as the source parent")
         obj_copy = obj._parent._h5group.copy(source=src, dest=self._h5group, name=name, cls=clsname, keep_id=keep_id)
-        return obj_copy.attrs["entity_id"]
+        # the copy is addressed by its name: with keep_id the id is not unique
+        return name
 
     @property
     def sources(self):
